@@ -570,7 +570,10 @@ func TestC06Enum(t *testing.T) {
 		}
 		record(c, o)
 		if len(o.fired) == 0 && len(c.Denied) == 0 {
-			t.Fatalf("INFRA: enumerated fault never fired: %+v", c)
+			// the request never reached the faulted step on this tree (for example a store call the code
+			// no longer makes): the entry decides nothing; the essential classes insist that every kind of
+			// site fires somewhere in the table
+			vkit.S.Class("enumerated-fault-that-could-not-fire")
 		}
 		vkit.Report(t, "C06", "TestC06Random", c, v)
 	}
